@@ -1,6 +1,16 @@
 HOOK_COMMITS = ["df48cf5"]
 NOT_APPLICABLE = {}
 TEXTS = {
+ "C09": {
+  "technique": "stateful property-based testing (rapid) with the change log as oracle: generated write / watch / TryNext / close histories, retention-truncation histories, and generated concurrent writer/consumer programs with schedule perturbation and bounded, state-decided liveness",
+  "level_text": "Generated histories and concurrent programs judged against the change log the harness records itself: exact, ordered, once-only delivery per scope and start position, invalidation, resume tokens, explicit lost-position errors under retention, and wake-up by commit / Close / cancellation / shutdown within a bound. The thorough tier repeats the concurrent part under the race detector. Sampling, not proof.",
+  "level_note": "'Without stalls' is checked with a 10 s bound. One open finding (stream positioned before the first event skips discarded events) is excluded by a narrow predicate and replayed on every run.",
+ },
+ "C04": {
+  "technique": "property-based concurrency testing (rapid): generated concurrent programs with a generated schedule-perturbation tape on real goroutines; history oracle with the change log as witness order, sequential replay, real-time order, prefix visibility and conservation; race detector in the thorough tier",
+  "level_text": "Generated concurrent programs executed on real goroutines with seed-dependent perturbation at the engine's lock-release points; the recorded history is judged by an oracle that needs no search because the property names the witness (the change log): attribution and contiguity of events, real-time order, sequential replay reproducing every result and the final state, prefix visibility of reads and event-less calls, conservation of counters and marks. The thorough tier adds -race. Sampling of schedules, not enumeration.",
+  "level_note": "Nondeterministic schedules affect reproducibility, not soundness: the oracle judges the recorded history; a rare interleaving needing a specific multi-way race may be missed.",
+ },
  "C03": {
   "technique": "stateful property-based testing (rapid): generated session/transaction histories with fault injection; visibility and read-your-writes checked against shadow engines, snapshot immutability by byte-level re-dumps",
   "level_text": "Generated histories over two sessions and a plain client with commit / abort / end / failing-store / panicking-callback decisions and snapshot-taking steps; the visible state, the in-transaction results and the post-commit state are compared with shadow engines seeded from the committed state, and every held snapshot is re-dumped after every step. Sampling, not proof.",
